@@ -694,7 +694,8 @@ func (in *Interp) doSelect(fr *frame, x *ssa.Select) V {
 				continue
 			}
 			if e.send {
-				if e.ch.closed || len(e.ch.buf) < e.ch.cap || e.ch.recvWaiting > 0 {
+				// a send case is ready when the buffer has room, or (unbuffered) a receiver is parked on the channel
+				if e.ch.closed || len(e.ch.buf) < e.ch.cap || (e.ch.cap == 0 && e.ch.recvWaiting > 0) {
 					r = append(r, i)
 				}
 			} else if e.ch.recvReady() {
